@@ -19,5 +19,5 @@ one() {
   rm -rf $S
 }
 export -f one
-ls seeded_harmless | grep -E '^C[0-9]+[rst][0-9]$' | xargs -P6 -I{} bash -c 'one {}' | sort > $OUT.tmp
+ls seeded_harmless | grep -E '^C[0-9]+[rst][0-9]$' | xargs -P7 -I{} bash -c 'one {}' | tee $OUT.partial | sort > $OUT.tmp
 mv $OUT.tmp $OUT; cat $OUT
